@@ -1098,8 +1098,8 @@ func c10OnImplementsZero(c *Ctx, rule string) {
 	}
 	c.analysed(relName(f))
 	t0 := ssa.Value(f.Params[0])
-	// the stripped type: phi [t0, Elem(t0)]; the flag: a bool phi in the same block, true exactly on the Elem edge
-	var tphi, flag *ssa.Phi
+	// the stripped type: phi [t0, Elem(t0)]
+	var tphi *ssa.Phi
 	for _, i := range allInstrs(f) {
 		ph, ok := i.(*ssa.Phi)
 		if !ok {
@@ -1111,33 +1111,7 @@ func c10OnImplementsZero(c *Ctx, rule string) {
 			}
 		}
 	}
-	if tphi != nil {
-		for _, i := range tphi.Block().Instrs {
-			ph, ok := i.(*ssa.Phi)
-			if !ok || ph == tphi {
-				continue
-			}
-			if b, ok := ph.Type().Underlying().(*types.Basic); !ok || b.Kind() != types.Bool {
-				continue
-			}
-			agree := true
-			for ei, e := range ph.Edges {
-				cst, ok := e.(*ssa.Const)
-				if !ok || cst.Value == nil {
-					agree = false
-					break
-				}
-				stripped := tphi.Edges[ei] != t0
-				if (cst.Value.ExactString() == "true") != stripped {
-					agree = false
-				}
-			}
-			if agree {
-				flag = ph
-			}
-		}
-	}
-	if tphi == nil || flag == nil {
+	if tphi == nil || tphi.Block().Idom() == nil {
 		// nothing is stripped (or not in this shape): every Zero must be of the parameter type itself
 		n := 0
 		for _, r := range returnsOf(f) {
@@ -1151,12 +1125,15 @@ func c10OnImplementsZero(c *Ctx, rule string) {
 		}
 		return
 	}
-	pb := &predBuilder{name: func(v ssa.Value) string {
-		if v == ssa.Value(flag) {
-			return "wasPointer"
+	// "the pointer was stripped" = the phi was entered through an edge carrying Elem(t0); boolean flags derived
+	// from the same test (a phi of constants, or the test itself kept in a local) expand to the same atoms
+	pb := &predBuilder{}
+	var stripped formula = fConst{false}
+	for ei, e := range tphi.Edges {
+		if e != t0 {
+			stripped = mkOr(stripped, pb.pathCondEdge(tphi.Block().Idom(), tphi.Block().Preds[ei], tphi.Block()))
 		}
-		return ""
-	}}
+	}
 	n := 0
 	for _, r := range returnsOf(f) {
 		call, ok := retVals(r)[0].(*ssa.Call)
@@ -1166,20 +1143,18 @@ func c10OnImplementsZero(c *Ctx, rule string) {
 		n++
 		x := call.Call.Args[0]
 		g := pb.pathCond(tphi.Block(), r.Block())
-		fb, fi := map[string]bool{}, map[string]bool{}
-		atomsOf(g, fb, fi)
 		name := relName(f) + "#zero#" + itoa(n)
 		switch {
 		case x == t0:
 			c.ok(rule, name, call.Pos(), "the unset value is typed by the field type as passed in")
 		case x == ssa.Value(tphi):
-			_, counter := forAll(g, nil, func(e env, fv bool) bool { return !fv || (fb["wasPointer"] && !e.B["wasPointer"]) })
+			_, counter := forAll(mkAnd(g, stripped), nil, func(e env, fv bool) bool { return !fv })
 			c.check(counter == "", rule, name, call.Pos(), "Zero of the stripped type is returned only where no pointer was stripped",
 				"for a pointer field the unset value is the zero of the pointee type (the pointer was stripped from t above): an unset *time.Time / *net.IP field comes back as a value of the wrong type and ReverseTranslate fails with 'incompatible types' - an empty translated value can no longer be reversed")
 		default:
 			pt, ok := x.(*ssa.Call)
 			if ok && (calleeFullName(pt) == "reflect.PtrTo" || calleeFullName(pt) == "reflect.PointerTo") && pt.Call.Args[0] == ssa.Value(tphi) {
-				_, counter := forAll(g, nil, func(e env, fv bool) bool { return !fv || (fb["wasPointer"] && e.B["wasPointer"]) })
+				_, counter := forAll(mkAnd(g, mkNot(stripped)), nil, func(e env, fv bool) bool { return !fv })
 				c.check(counter == "", rule, name, call.Pos(), "Zero of pointer-to-stripped is returned only where the pointer was stripped", "a nil pointer to the stripped type is returned on a path where the field type was not a pointer: "+counter)
 			} else {
 				c.bad(rule, name, call.Pos(), "the unset value returned by OnImplements is typed by %s, which is not provably the field's own type", canon(x))
@@ -1210,7 +1185,15 @@ func c10RecursionExcludesTextM(c *Ctx, rule string) {
 		}
 		for _, ec := range conds {
 			cc, ok := ec.Cond.(*ssa.Call)
-			if !ok || ec.Val || calleeFullName(cc) != "(reflect.Type).Implements" {
+			if !ok || ec.Val {
+				continue
+			}
+			// a helper predicate `t implements X as T or as *T`, applied to L
+			if h := staticCallee(cc); h != nil && len(cc.Call.Args) == 1 && sameValue(cc.Call.Args[0], L) && bothFormsPredicate(h) {
+				direct, viaPtr = true, true
+				continue
+			}
+			if calleeFullName(cc) != "(reflect.Type).Implements" {
 				continue
 			}
 			recv := cc.Call.Value
@@ -1335,4 +1318,42 @@ func loadOfFieldNamed(v ssa.Value, name string) (ssa.Value, bool) {
 		}
 	}
 	return nil, false
+}
+
+// bothFormsPredicate: h(t reflect.Type) bool returns true whenever t or *t implements some interface
+// (t.Implements(X) || reflect.PointerTo(t).Implements(X)), so a false result excludes both forms.
+func bothFormsPredicate(h *ssa.Function) bool {
+	h = origin(h)
+	if len(h.Blocks) == 0 || len(h.Params) != 1 {
+		return false
+	}
+	p := ssa.Value(h.Params[0])
+	seenD, seenP := false, false
+	pb := &predBuilder{name: func(v ssa.Value) string {
+		cc, ok := v.(*ssa.Call)
+		if !ok || calleeFullName(cc) != "(reflect.Type).Implements" {
+			return ""
+		}
+		if cc.Call.Value == p {
+			seenD = true
+			return "direct"
+		}
+		if pc, ok := cc.Call.Value.(*ssa.Call); ok && (calleeFullName(pc) == "reflect.PtrTo" || calleeFullName(pc) == "reflect.PointerTo") && pc.Call.Args[0] == p {
+			seenP = true
+			return "viaPtr"
+		}
+		return ""
+	}}
+	var res formula = fConst{false}
+	for _, r := range returnsOf(h) {
+		rv := retVals(r)
+		if len(rv) != 1 {
+			return false
+		}
+		res = mkOr(res, mkAnd(pb.pathCond(h.Blocks[0], r.Block()), pb.valueFormula(rv[0], 0)))
+	}
+	if _, counter := forAll(res, nil, func(e env, fv bool) bool { return fv || !(e.B["direct"] || e.B["viaPtr"]) }); counter != "" {
+		return false
+	}
+	return seenD && seenP
 }
